@@ -448,6 +448,56 @@ def rule_r13(ctx):
                      "frame a second time" % c.line)
 
 
+def rule_r14(ctx):
+    r = ctx.rule("C16.R14", "T3", "a resumable parser keeps its progress in the connection: nni_http_req_parse / nni_http_res_parse return "
+                 "NNG_EAGAIN and are called again when more bytes arrive, so (a) the decision 'first line or header line' reads a "
+                 "field of the persistent request / response object, not a local, and (b) that field is stored once the first "
+                 "line has been taken -- with the progress in a local the same bytes decode differently depending on where the "
+                 "reads split them", floor=2)
+    prog = ctx.prog
+    n = 0
+    for name in ("nni_http_req_parse", "nni_http_res_parse"):
+        f = prog.need(name, "supplemental/http/http_msg.c")
+        hdr = [c for c in f.calls("http_parse_header")]
+        first = [c for c in f.calls(("http_req_parse_line", "http_res_parse_line"))]
+        G.need_sites(hdr + first, "the two line parsers", f)
+        n += 1
+        facts = G.edge_facts(f)
+        # (a) the header parser runs only over an edge that tested a persistent field
+        dec = {}
+        for bid, k, atom, val in facts:
+            if atom.get("k") == "mem" and val:
+                dec.setdefault(atom.get("f"), {})[bid] = k
+        field = next((fl for fl, ed in dec.items() if all(G.dominated(f, (c.b, c.i), ed) for c in hdr)), None)
+        if field is None:
+            ctx.fail(r, f, "header / first-line decision not taken from the persistent object", hdr[0].line,
+                     "%s decides between the first-line parser and the header parser without testing a field of the request / "
+                     "response object: the decision does not survive the NNG_EAGAIN return, and a head that arrives in two reads "
+                     "is parsed from the start again" % name)
+            continue
+        # (b) the field is stored on every path that took the first line (and goes on)
+        sets = {(t.b, t.i) for t in f.assigns() if t.node["lhs"].get("k") == "mem" and t.node["lhs"].get("f") == field and
+                const_of(f.expand(t.node["rhs"])) not in (None, 0)}
+        bad = None
+        for c in first:
+            before = bool(sets) and f.dominated_by((c.b, c.i), blocked=lambda b, i, e: (b, i) in sets)
+            ve = f.value_edges(c)
+            failed = {b: nz for b, (nz, z) in ve.items()}        # edges on which the first-line parser reported an error
+            seen = f.reach((c.b, c.i + 1), blocked=lambda b, i, e: (b, i) in sets,
+                           edge_ok=lambda b, k: not (b in failed and failed[b] == k))
+            after = bool(sets) and not any((hc.b, hc.i) in seen for hc in first + hdr)
+            if not (before or after):
+                bad = c
+        if bad is not None:
+            ctx.fail(r, f, "first line taken without recording it in %s" % field, bad.line,
+                     "%s parses the first line at line %s and can come back to the line loop (or return NNG_EAGAIN) without "
+                     "storing %s: the next line, or the next call, is parsed as a first line again" % (name, bad.line, field))
+        else:
+            r.ob(f, "decision read from and recorded in %s" % field)
+    if n < 2:
+        raise AnalysisBroken("resumable HTTP parsers not found")
+
+
 def run(ctx):
     ctx.guard(rule_r1)
     ctx.guard(rule_r2)
@@ -463,3 +513,4 @@ def run(ctx):
     ctx.guard(rule_r11)
     ctx.guard(rule_r12)
     ctx.guard(rule_r13)
+    ctx.guard(rule_r14)
